@@ -103,6 +103,12 @@ type install struct {
 	// action policy for expression parties: 0 all pass, 1 all re-enter, 2 per-invocation choice
 	policy   int
 	reenterP int // probability numerator /8 for policy 2
+	// subParse: parties occasionally run an independent nested parser before calling next()
+	subParse bool
+	// builds: how many parsers are built (and parsed) from the same builder; lateAdds[b] is the
+	// kind of party installed on the builder just before build b (0 = none)
+	builds   int
+	lateAdds []byte
 }
 
 func drawInstall(ch *kernel.Chooser, forC16 bool) install {
@@ -139,24 +145,67 @@ func drawInstall(ch *kernel.Chooser, forC16 bool) install {
 	}
 	in.policy = ch.Weighted(4, 2, 5)
 	in.reenterP = 1 + ch.Choose(7)
+	in.subParse = ch.Bool(1, 4)
+	in.builds = 1 + ch.Weighted(5, 3, 2)
+	in.lateAdds = make([]byte, in.builds)
+	for b := 1; b < in.builds; b++ {
+		if ch.Bool(1, 2) {
+			in.lateAdds[b] = "TSE"[ch.Choose(3)]
+		}
+	}
 	return in
 }
 
 func (in install) String() string {
-	return fmt.Sprintf("token=%d stmt=%d expr=%d order=%s policy=%d", in.kT, in.kS, in.kE, string(in.order), in.policy)
+	return fmt.Sprintf("token=%d stmt=%d expr=%d order=%s policy=%d nested-parse=%v builds=%d late=%q", in.kT, in.kS, in.kE, string(in.order), in.policy, in.subParse, in.builds, string(in.lateAdds))
 }
 
-// build constructs builders with all parties installed; actions are drawn from ch at invocation time.
-func build(in install, m xutil.Mode, ch *kernel.Chooser, r *recorder, st *kernel.Stats) *parser.Builder {
+// installation: one pair of builders with the simulated parties installed so far.
+// Parties can be added later (between two Build calls); actions are drawn from ch at invocation time.
+type installation struct {
+	lb         *lexer.Builder
+	pb         *parser.Builder
+	in         *install
+	m          xutil.Mode
+	ch         *kernel.Chooser
+	r          *recorder
+	st         *kernel.Stats
+	ti, si, ei int
+	exprDepth  int
+}
+
+func newInstallation(in *install, m xutil.Mode, ch *kernel.Chooser, r *recorder, st *kernel.Stats) *installation {
 	lb := lexer.NewBuilder()
 	pb := parser.NewBuilder(lb).WithTolerantMode(m.Tolerant).WithSmartSemicolon(m.Smart)
-	ti, si, ei := 0, 0, 0
-	exprDepth := 0
+	return &installation{lb: lb, pb: pb, in: in, m: m, ch: ch, r: r, st: st}
+}
+
+// build constructs builders with all parties of in installed.
+func build(in install, m xutil.Mode, ch *kernel.Chooser, r *recorder, st *kernel.Stats) *parser.Builder {
+	x := newInstallation(&in, m, ch, r, st)
 	for n, k := range in.order {
+		x.add(k, in.viaInstall[n])
+	}
+	return x.pb
+}
+
+// subProgram is parsed by a nested, independent parser from inside an interceptor
+// (a plugin that parses embedded code): it must not disturb the outer parser.
+const subProgram = "function q(u) { if (u) { let z = function () { return { k: [u, 1] } }\n } while (u) { u-- } }\nq(1)"
+
+func (x *installation) nestedParse() {
+	x.st.Inc("probe.nested_parser_run_inside_interceptor")
+	o := xutil.Parse(xutil.PlainBuilder(x.m), subProgram)
+	_ = o
+}
+
+func (x *installation) add(k byte, via bool) {
+	lb, pb, in, ch, r, st := x.lb, x.pb, x.in, x.ch, x.r, x.st
+	{
 		switch k {
 		case 'T':
-			idx := ti
-			ti++
+			idx := x.ti
+			x.ti++
 			f := func(l *lexer.Lexer, next func() token.Token) token.Token {
 				// the property fixes no order for token interceptors: whichever party runs outermost counts the pull
 				outermost := r.tDepth == 0
@@ -175,21 +224,24 @@ func build(in install, m xutil.Mode, ch *kernel.Chooser, r *recorder, st *kernel
 				return t
 			}
 			// token interceptors are installed on the lexer builder; "through plugins" = a parser plugin that reaches the lexer builder
-			if in.viaInstall[n] {
+			if via {
 				pb.Install(func(b *parser.Builder) { b.LexerBuilder.UseTokenInterceptor(f) })
 				st.Inc("probe.installed_via_plugin")
 			} else {
 				lb.UseTokenInterceptor(f)
 			}
 		case 'S':
-			idx := si
-			si++
+			idx := x.si
+			x.si++
 			f := func(p *parser.Parser, next func() ast.Statement) ast.Statement {
 				entry := p.CurrentToken
 				ord := r.ordinal(entry)
 				r.add('S', idx, 'e', ord, false)
 				if idx == 0 {
 					r.ctxs = append(r.ctxs, ctxObs{kind: 'S', ord: ord, inFunc: p.IsInFunction(), ctx: p.CurrentContext(), tokLit: entry.Literal})
+				}
+				if in.subParse && ch.Bool(1, 12) {
+					x.nestedParse()
 				}
 				r.add('S', idx, 'n', ord, false)
 				s := next()
@@ -199,15 +251,15 @@ func build(in install, m xutil.Mode, ch *kernel.Chooser, r *recorder, st *kernel
 				}
 				return s
 			}
-			if in.viaInstall[n] {
+			if via {
 				pb.Install(func(b *parser.Builder) { b.UseStatementInterceptor(f) })
 				st.Inc("probe.installed_via_plugin")
 			} else {
 				pb.UseStatementInterceptor(f)
 			}
 		case 'E':
-			idx := ei
-			ei++
+			idx := x.ei
+			x.ei++
 			f := func(p *parser.Parser, next func() ast.Expression) ast.Expression {
 				entry := p.CurrentToken
 				ord := r.ordinal(entry)
@@ -222,30 +274,33 @@ func build(in install, m xutil.Mode, ch *kernel.Chooser, r *recorder, st *kernel
 				if idx == 0 {
 					r.ctxs = append(r.ctxs, ctxObs{kind: 'E', ord: ord, inFunc: p.IsInFunction(), ctx: p.CurrentContext(), tokLit: entry.Literal})
 				}
-				exprDepth++
-				var x ast.Expression
+				x.exprDepth++
+				if in.subParse && ch.Bool(1, 24) {
+					x.nestedParse()
+				}
+				var e ast.Expression
 				if re {
 					st.Inc("probe.reentrant_invocations")
-					if exprDepth >= 3 {
+					if x.exprDepth >= 3 {
 						st.Inc("probe.reentrant_at_depth_ge3")
 					}
-					if idx+1 < in.kE {
+					if idx+1 < x.ei {
 						st.Inc("probe.reentrant_party_before_passthrough_party")
 					}
 					left := p.ParsePrefixExpression()
-					x = p.ParseRemainingExpression(left)
+					e = p.ParseRemainingExpression(left)
 				} else {
 					r.add('E', idx, 'n', ord, false)
-					x = next()
+					e = next()
 				}
-				exprDepth--
+				x.exprDepth--
 				r.add('E', idx, 'x', ord, re)
 				if idx == 0 {
-					r.exprRet = append(r.exprRet, exprRet{entry: entry, node: x})
+					r.exprRet = append(r.exprRet, exprRet{entry: entry, node: e})
 				}
-				return x
+				return e
 			}
-			if in.viaInstall[n] {
+			if via {
 				pb.Install(func(b *parser.Builder) { b.UseExpressionInterceptor(f) })
 				st.Inc("probe.installed_via_plugin")
 			} else {
@@ -253,7 +308,6 @@ func build(in install, m xutil.Mode, ch *kernel.Chooser, r *recorder, st *kernel
 			}
 		}
 	}
-	return pb
 }
 
 // ---- history checker ---------------------------------------------------------------
@@ -550,6 +604,7 @@ func (e *Engine) Run(prop string, ch *kernel.Chooser, st *kernel.Stats) kernel.R
 		return map[string]any{"input": text, "valid_program": p.Text, "fault": faultDesc, "mode": m.String(), "install": in.String()}
 	}
 	var viol []kernel.Violation
+	curBuild := 0
 	add := func(propID, kind, sig, detail string) {
 		if propID != prop {
 			return
@@ -560,7 +615,7 @@ func (e *Engine) Run(prop string, ch *kernel.Chooser, st *kernel.Stats) kernel.R
 			}
 		}
 		viol = append(viol, kernel.Violation{Property: propID, Kind: kind, Signature: sig,
-			Detail: fmt.Sprintf("%s\ninput: %q\nmode=%s install: %s fault=%s", detail, text, m, in, faultDesc), Materialised: mat()})
+			Detail: fmt.Sprintf("%s\ninput: %q\nmode=%s install: %s fault=%s parser #%d of this builder", detail, text, m, in, faultDesc, curBuild+1), Materialised: mat()})
 	}
 
 	// 0. baseline: zero interceptors
@@ -586,245 +641,272 @@ func (e *Engine) Run(prop string, ch *kernel.Chooser, st *kernel.Stats) kernel.R
 	_, refS := checkHistory(ref.events, 'S', 1)
 	_, refE := checkHistory(ref.events, 'E', 1)
 
-	// 2. the simulated installation
+	// 2. the simulated installation: one builder, in.builds parsers built from it one after the other
+	// (every parser must behave as the first does), parties possibly installed between two builds
 	rec := &recorder{posIndex: posIndex, nTok: len(toks)}
-	out := observe(build(in, m, ch, rec, st), text, rec)
-	res.Steps = int64(len(rec.events))
-	anyRe := false
-	for _, ev := range rec.events {
-		if ev.re {
-			anyRe = true
-			break
+	inst := newInstallation(&in, m, ch, rec, st)
+	for n, k := range in.order {
+		inst.add(k, in.viaInstall[n])
+	}
+	for curBuild = 0; curBuild < in.builds; curBuild++ {
+		if curBuild > 0 {
+			if k := in.lateAdds[curBuild]; k != 0 {
+				inst.add(k, ch.Bool(1, 3))
+				switch k {
+				case 'T':
+					in.kT++
+				case 'S':
+					in.kS++
+				case 'E':
+					in.kE++
+				}
+				in.order = append(in.order, k)
+				st.Inc("probe.party_installed_between_two_builds")
+			}
+			*rec = recorder{posIndex: posIndex, nTok: len(toks)}
+			st.Inc("probe.builder_reused_for_another_parser")
 		}
-	}
-	if !valid && base.errors != "" && in.kS+in.kE+in.kT >= 8 {
-		st.Inc("probe.malformed_with_errors_under_many_interceptors")
-	}
+		out := observe(inst.pb, text, rec)
+		res.Steps += int64(len(rec.events))
+		anyRe := false
+		for _, ev := range rec.events {
+			if ev.re {
+				anyRe = true
+				break
+			}
+		}
+		if !valid && base.errors != "" && in.kS+in.kE+in.kT >= 8 {
+			st.Inc("probe.malformed_with_errors_under_many_interceptors")
+		}
 
-	if prop == "C04" {
-		cmp := func(label string, o outcome) {
-			tag := "transparency"
-			if anyRe && label == "run" {
-				tag = "reentrant"
-			}
-			switch {
-			case o.panic != "":
-				add("C04", tag, tag+"|panic", fmt.Sprintf("%s: parse with interceptors panicked (%s); without interceptors it does not", label, o.panic))
-			case o.tree != base.tree:
-				add("C04", tag, tag+"|tree", fmt.Sprintf("%s: tree differs from the zero-interceptor tree\n with:    %s\n without: %s", label, clip(o.tree), clip(base.tree)))
-			case o.errors != base.errors || o.errNil != base.errNil:
-				add("C04", tag, tag+"|errors", fmt.Sprintf("%s: errors differ: with=%q without=%q", label, o.errors, base.errors))
-			case o.compact != base.compact || o.pretty != base.pretty:
-				add("C04", tag, tag+"|output", fmt.Sprintf("%s: output differs: with=%q without=%q", label, o.compact, base.compact))
-			}
-		}
-		cmp("one-observer run", refOut)
-		cmp("run", out)
-		// token sequence delivered to the parser == plain lexer's sequence (all fields)
-		for _, rr := range []*recorder{ref, rec} {
-			for _, to := range rr.toks {
-				i := to.pull - 1
-				want := ""
-				got := xutil.TokString(to.tok)
-				if i < len(baseTokens) {
-					want = baseTokens[i]
-				} else if len(toks) > 0 {
-					// end of input requested again: type and position must be those of the first end-of-input token
-					last := toks[len(toks)-1]
-					want = fmt.Sprintf("%d@%d:%d-%d:%d", int(last.Type), last.Start.Line, last.Start.Column, last.End.Line, last.End.Column)
-					got = fmt.Sprintf("%d@%d:%d-%d:%d", int(to.tok.Type), to.tok.Start.Line, to.tok.Start.Column, to.tok.End.Line, to.tok.End.Column)
+		if prop == "C04" {
+			cmp := func(label string, o outcome) {
+				tag := "transparency"
+				if anyRe && label == "run" {
+					tag = "reentrant"
 				}
-				if got != want {
-					add("C04", "transparency", "transparency|tokens", fmt.Sprintf("token #%d delivered through the interceptor chain is %s, the plain lexer yields %s", i, got, want))
-					break
-				}
-				// lexer positioned on the lexeme's first byte at entry
-				off := lineColOffset(text, to.line, to.col)
-				if to.tok.Type == token.EOF {
-					if !(off >= len(text) || (off >= 0 && text[off] == 0)) || to.ch != 0 {
-						add("C04", "token-cursor", "token-cursor|eof", fmt.Sprintf("at entry of the token interceptor for end-of-input the lexer is at %d:%d (byte %d of %d, char %q)", to.line, to.col, off, len(text), to.ch))
-					}
-					continue
-				}
-				if off < 0 || off >= len(text) || text[off] != to.ch {
-					add("C04", "token-cursor", "token-cursor|position", fmt.Sprintf("at entry of the token interceptor for %s the lexer reports %d:%d char %q, which is not a byte of the input there", xutil.TokString(to.tok), to.line, to.col, to.ch))
-					continue
-				}
-				lex := to.tok.Literal
-				okc := false
-				switch to.tok.Type {
-				case token.STRING:
-					okc = to.ch == '"' || to.ch == '\''
-				case token.RAW_STRING:
-					okc = to.ch == '`'
-				case token.ILLEGAL:
-					okc = true
-				default:
-					okc = strings.HasPrefix(text[off:], lex)
-				}
-				if !okc {
-					add("C04", "token-cursor", "token-cursor|first-byte", fmt.Sprintf("at entry of the token interceptor for %s the lexer is at %d:%d on %q, not on the lexeme's first byte", xutil.TokString(to.tok), to.line, to.col, to.ch))
-				}
-				if valid && i < len(p.Toks) {
-					gt := p.Toks[i]
-					if gt.Line != to.line || gt.Col != to.col {
-						add("C04", "token-cursor", "token-cursor|generator-position", fmt.Sprintf("token #%d %q starts at %d:%d (generator), lexer was at %d:%d at interceptor entry", i, gt.Text, gt.Line, gt.Col, to.line, to.col))
-					}
+				switch {
+				case o.panic != "":
+					add("C04", tag, tag+"|panic", fmt.Sprintf("%s: parse with interceptors panicked (%s); without interceptors it does not", label, o.panic))
+				case o.tree != base.tree:
+					add("C04", tag, tag+"|tree", fmt.Sprintf("%s: tree differs from the zero-interceptor tree\n with:    %s\n without: %s", label, clip(o.tree), clip(base.tree)))
+				case o.errors != base.errors || o.errNil != base.errNil:
+					add("C04", tag, tag+"|errors", fmt.Sprintf("%s: errors differ: with=%q without=%q", label, o.errors, base.errors))
+				case o.compact != base.compact || o.pretty != base.pretty:
+					add("C04", tag, tag+"|output", fmt.Sprintf("%s: output differs: with=%q without=%q", label, o.compact, base.compact))
 				}
 			}
-		}
-		// history: order, exactly-once, same current token
-		for _, kk := range []struct {
-			kind byte
-			k    int
-			ref  []int
-			name string
-		}{{'T', in.kT, nil, "token"}, {'S', in.kS, refS, "statement"}, {'E', in.kE, refE, "expression"}} {
-			if kk.k == 0 {
-				continue
-			}
-			evs := rec.events
-			if kk.kind == 'T' {
-				evs = normaliseTokenOrder(rec.events, kk.k)
-			}
-			prob, ords := checkHistory(evs, kk.kind, kk.k)
-			if prob != "" {
-				add("C04", "order", "order|"+kk.name, prob)
-				continue
-			}
-			if kk.kind == 'T' {
-				// once per token: every party ran once per pull
-				cnt := make([]int, kk.k)
-				for _, ev := range rec.events {
-					if ev.kind == 'T' && ev.phase == 'e' {
-						cnt[ev.idx]++
-					}
-				}
-				for i := range cnt {
-					if cnt[i] != rec.pulls {
-						add("C04", "order", "order|token-count", fmt.Sprintf("token interceptor %d ran %d times for %d tokens", i, cnt[i], rec.pulls))
-					}
-				}
-				if rec.pulls != ref.pulls {
-					add("C04", "steps", "steps|token", fmt.Sprintf("%d tokens were requested with %d token interceptors, %d with one", rec.pulls, kk.k, ref.pulls))
-				}
-				continue
-			}
-			// adding interceptors neither adds nor removes steps
-			if !equalInts(ords, kk.ref) {
-				add("C04", "steps", "steps|"+kk.name, fmt.Sprintf("%s steps (current-token ordinals) with %d interceptors: %v; with one: %v", kk.name, kk.k, ords, kk.ref))
-			}
-		}
-		// statement steps on valid programs = the generator's statement starts
-		if valid && !equalInts(refS, p.StmtStarts) {
-			add("C04", "first-token", "first-token|statement-steps", fmt.Sprintf("statement interceptor saw current tokens %v, the program's statements start at tokens %v", refS, p.StmtStarts))
-		}
-		// every party saw the first token of the construct that was parsed
-		for _, rr := range []*recorder{ref, rec} {
-			for _, sr := range rr.stmtRet {
-				if lt, ok := leftmostStmt(sr.node); ok && (lt.Start != sr.entry.Start || lt.Type != sr.entry.Type) {
-					add("C04", "first-token", "first-token|statement", fmt.Sprintf("statement interceptor ran with current token %s but the statement it got back starts with %s", xutil.TokString(sr.entry), xutil.TokString(lt)))
-				}
-			}
-			for _, er := range rr.exprRet {
-				if lt, ok := leftmostExpr(er.node); ok && (lt.Start != er.entry.Start || lt.Type != er.entry.Type) {
-					add("C04", "first-token", "first-token|expression", fmt.Sprintf("expression interceptor ran with current token %s but the expression it got back starts with %s", xutil.TokString(er.entry), xutil.TokString(lt)))
-				}
-			}
-		}
-		// pull-number ordinal must agree with the position ordinal (one lookahead token)
-		if in.kT > 0 {
-			// checked implicitly through transparency|tokens; nothing more here
-		}
-	}
-
-	if prop == "C16" {
-		// in-run oracle on valid programs: answers at every invocation vs generator nesting
-		if valid {
+			cmp("one-observer run", refOut)
+			cmp("run", out)
+			// token sequence delivered to the parser == plain lexer's sequence (all fields)
 			for _, rr := range []*recorder{ref, rec} {
-				for _, c := range rr.ctxs {
-					if c.ord < 0 || c.ord >= len(p.Toks) {
+				for _, to := range rr.toks {
+					i := to.pull - 1
+					want := ""
+					got := xutil.TokString(to.tok)
+					if i < len(baseTokens) {
+						want = baseTokens[i]
+					} else if len(toks) > 0 {
+						// end of input requested again: type and position must be those of the first end-of-input token
+						last := toks[len(toks)-1]
+						want = fmt.Sprintf("%d@%d:%d-%d:%d", int(last.Type), last.Start.Line, last.Start.Column, last.End.Line, last.End.Column)
+						got = fmt.Sprintf("%d@%d:%d-%d:%d", int(to.tok.Type), to.tok.Start.Line, to.tok.Start.Column, to.tok.End.Line, to.tok.End.Column)
+					}
+					if got != want {
+						add("C04", "transparency", "transparency|tokens", fmt.Sprintf("token #%d delivered through the interceptor chain is %s, the plain lexer yields %s", i, got, want))
+						break
+					}
+					// lexer positioned on the lexeme's first byte at entry
+					off := lineColOffset(text, to.line, to.col)
+					if to.tok.Type == token.EOF {
+						if !(off >= len(text) || (off >= 0 && text[off] == 0)) || to.ch != 0 {
+							add("C04", "token-cursor", "token-cursor|eof", fmt.Sprintf("at entry of the token interceptor for end-of-input the lexer is at %d:%d (byte %d of %d, char %q)", to.line, to.col, off, len(text), to.ch))
+						}
 						continue
 					}
-					gt := p.Toks[c.ord]
-					kindName := map[byte]string{'S': "statement", 'E': "expression"}[c.kind]
-					if gt.CtxDepth >= 5 {
-						st.Inc("probe.depth_ge5")
+					if off < 0 || off >= len(text) || text[off] != to.ch {
+						add("C04", "token-cursor", "token-cursor|position", fmt.Sprintf("at entry of the token interceptor for %s the lexer reports %d:%d char %q, which is not a byte of the input there", xutil.TokString(to.tok), to.line, to.col, to.ch))
+						continue
 					}
-					if c.inFunc != gt.InFunc {
-						add("C16", "in-function", fmt.Sprintf("in-function|want=%v|%s", gt.InFunc, kindName),
-							fmt.Sprintf("%s interceptor at token #%d %q (%d:%d): IsInFunction()=%v but the token is%s inside a function body (nesting depth %d)", kindName, c.ord, gt.Text, gt.Line, gt.Col, c.inFunc, map[bool]string{true: "", false: " not"}[gt.InFunc], gt.CtxDepth))
+					lex := to.tok.Literal
+					okc := false
+					switch to.tok.Type {
+					case token.STRING:
+						okc = to.ch == '"' || to.ch == '\''
+					case token.RAW_STRING:
+						okc = to.ch == '`'
+					case token.ILLEGAL:
+						okc = true
+					default:
+						okc = strings.HasPrefix(text[off:], lex)
 					}
-					okCtx := false
-					want := ""
-					switch gt.Ctx {
-					case gen.CtxGlobal:
-						okCtx, want = c.ctx == parser.GlobalContext, "global"
-					case gen.CtxBlock:
-						okCtx, want = c.ctx == parser.BlockContext, "block"
-					case gen.CtxFunc:
-						// directly inside a function body: the body is a block in xjs's tree; either answer is accepted (DESIGN §5.7)
-						okCtx, want = c.ctx == parser.FunctionContext || c.ctx == parser.BlockContext, "function-or-block"
-						st.Inc("probe.function_body_direct")
+					if !okc {
+						add("C04", "token-cursor", "token-cursor|first-byte", fmt.Sprintf("at entry of the token interceptor for %s the lexer is at %d:%d on %q, not on the lexeme's first byte", xutil.TokString(to.tok), to.line, to.col, to.ch))
 					}
-					if !okCtx {
-						add("C16", "innermost", fmt.Sprintf("innermost|want=%s|got=%d|%s", want, int(c.ctx), kindName),
-							fmt.Sprintf("%s interceptor at token #%d %q (%d:%d): CurrentContext()=%d but the innermost enclosing context is %s", kindName, c.ord, gt.Text, gt.Line, gt.Col, int(c.ctx), want))
-					}
-				}
-			}
-			for i, t := range p.Toks {
-				if t.Role == "fe.kw" && i > 0 {
-					switch p.Toks[i-1].Role {
-					case "call.(", "call.,":
-						st.Inc("probe.funcexpr_in_call_argument")
-					case "obj.:":
-						st.Inc("probe.funcexpr_in_object_value")
-					case "arr.[", "arr.,":
-						st.Inc("probe.funcexpr_in_array")
-					case "if.(", "while.(":
-						st.Inc("probe.funcexpr_in_condition")
+					if valid && i < len(p.Toks) {
+						gt := p.Toks[i]
+						if gt.Line != to.line || gt.Col != to.col {
+							add("C04", "token-cursor", "token-cursor|generator-position", fmt.Sprintf("token #%d %q starts at %d:%d (generator), lexer was at %d:%d at interceptor entry", i, gt.Text, gt.Line, gt.Col, to.line, to.col))
+						}
 					}
 				}
 			}
-		}
-		// final state of the chosen input under the simulated installation
-		finalCheck := func(label string, o outcome, txt string, mm xutil.Mode) {
-			if o.panic != "" {
-				return
-			}
-			if o.ctxTop != parser.GlobalContext || o.inFunc {
-				add("C16", "final-state", fmt.Sprintf("final-state|ctx=%d|inFunc=%v", int(o.ctxTop), o.inFunc),
-					fmt.Sprintf("%s: after ParseProgram returned, CurrentContext()=%d IsInFunction()=%v (mode %s) for input %q", label, int(o.ctxTop), o.inFunc, mm, txt))
-			}
-		}
-		finalCheck("with interceptors", out, text, m)
-		finalCheck("one observer", refOut, text, m)
-		// final state over every enumerated fault of this program x 4 modes (plain builder)
-		faults := faultsim.EnumerateFaults(p)
-		for _, f := range faults {
-			for _, mm := range xutil.AllModes {
-				o := xutil.Parse(xutil.PlainBuilder(mm), f.Text)
-				res.Evals++
-				if o.Panic != nil || o.Parser == nil {
+			// history: order, exactly-once, same current token
+			for _, kk := range []struct {
+				kind byte
+				k    int
+				ref  []int
+				name string
+			}{{'T', in.kT, nil, "token"}, {'S', in.kS, refS, "statement"}, {'E', in.kE, refE, "expression"}} {
+				if kk.k == 0 {
 					continue
 				}
-				if o.Parser.CurrentContext() != parser.GlobalContext || o.Parser.IsInFunction() {
-					add("C16", "final-state", fmt.Sprintf("final-state|ctx=%d|inFunc=%v", int(o.Parser.CurrentContext()), o.Parser.IsInFunction()),
-						fmt.Sprintf("after ParseProgram returned, CurrentContext()=%d IsInFunction()=%v (mode %s, fault %s) for input %q", int(o.Parser.CurrentContext()), o.Parser.IsInFunction(), mm, f.Ctx, f.Text))
+				evs := rec.events
+				if kk.kind == 'T' {
+					evs = normaliseTokenOrder(rec.events, kk.k)
 				}
-				if len(o.Errors) > 0 {
-					st.Inc("probe.final_state_checked_on_erroring_input")
+				prob, ords := checkHistory(evs, kk.kind, kk.k)
+				if prob != "" {
+					add("C04", "order", "order|"+kk.name, prob)
+					continue
+				}
+				if kk.kind == 'T' {
+					// once per token: every party ran once per pull
+					cnt := make([]int, kk.k)
+					for _, ev := range rec.events {
+						if ev.kind == 'T' && ev.phase == 'e' {
+							cnt[ev.idx]++
+						}
+					}
+					for i := range cnt {
+						if cnt[i] != rec.pulls {
+							add("C04", "order", "order|token-count", fmt.Sprintf("token interceptor %d ran %d times for %d tokens", i, cnt[i], rec.pulls))
+						}
+					}
+					if rec.pulls != ref.pulls {
+						add("C04", "steps", "steps|token", fmt.Sprintf("%d tokens were requested with %d token interceptors, %d with one", rec.pulls, kk.k, ref.pulls))
+					}
+					continue
+				}
+				// adding interceptors neither adds nor removes steps
+				if !equalInts(ords, kk.ref) {
+					add("C04", "steps", "steps|"+kk.name, fmt.Sprintf("%s steps (current-token ordinals) with %d interceptors: %v; with one: %v", kk.name, kk.k, ords, kk.ref))
+				}
+			}
+			// statement steps on valid programs = the generator's statement starts
+			if valid && !equalInts(refS, p.StmtStarts) {
+				add("C04", "first-token", "first-token|statement-steps", fmt.Sprintf("statement interceptor saw current tokens %v, the program's statements start at tokens %v", refS, p.StmtStarts))
+			}
+			// every party saw the first token of the construct that was parsed
+			for _, rr := range []*recorder{ref, rec} {
+				for _, sr := range rr.stmtRet {
+					if lt, ok := leftmostStmt(sr.node); ok && (lt.Start != sr.entry.Start || lt.Type != sr.entry.Type) {
+						add("C04", "first-token", "first-token|statement", fmt.Sprintf("statement interceptor ran with current token %s but the statement it got back starts with %s", xutil.TokString(sr.entry), xutil.TokString(lt)))
+					}
+				}
+				for _, er := range rr.exprRet {
+					if lt, ok := leftmostExpr(er.node); ok && (lt.Start != er.entry.Start || lt.Type != er.entry.Type) {
+						add("C04", "first-token", "first-token|expression", fmt.Sprintf("expression interceptor ran with current token %s but the expression it got back starts with %s", xutil.TokString(er.entry), xutil.TokString(lt)))
+					}
+				}
+			}
+			// pull-number ordinal must agree with the position ordinal (one lookahead token)
+			if in.kT > 0 {
+				// checked implicitly through transparency|tokens; nothing more here
+			}
+		}
+
+		if prop == "C16" {
+			// in-run oracle on valid programs: answers at every invocation vs generator nesting
+			if valid {
+				for _, rr := range []*recorder{ref, rec} {
+					for _, c := range rr.ctxs {
+						if c.ord < 0 || c.ord >= len(p.Toks) {
+							continue
+						}
+						gt := p.Toks[c.ord]
+						kindName := map[byte]string{'S': "statement", 'E': "expression"}[c.kind]
+						if gt.CtxDepth >= 5 {
+							st.Inc("probe.depth_ge5")
+						}
+						if c.inFunc != gt.InFunc {
+							add("C16", "in-function", fmt.Sprintf("in-function|want=%v|%s", gt.InFunc, kindName),
+								fmt.Sprintf("%s interceptor at token #%d %q (%d:%d): IsInFunction()=%v but the token is%s inside a function body (nesting depth %d)", kindName, c.ord, gt.Text, gt.Line, gt.Col, c.inFunc, map[bool]string{true: "", false: " not"}[gt.InFunc], gt.CtxDepth))
+						}
+						okCtx := false
+						want := ""
+						switch gt.Ctx {
+						case gen.CtxGlobal:
+							okCtx, want = c.ctx == parser.GlobalContext, "global"
+						case gen.CtxBlock:
+							okCtx, want = c.ctx == parser.BlockContext, "block"
+						case gen.CtxFunc:
+							// directly inside a function body: the body is a block in xjs's tree; either answer is accepted (DESIGN §5.7)
+							okCtx, want = c.ctx == parser.FunctionContext || c.ctx == parser.BlockContext, "function-or-block"
+							st.Inc("probe.function_body_direct")
+						}
+						if !okCtx {
+							add("C16", "innermost", fmt.Sprintf("innermost|want=%s|got=%d|%s", want, int(c.ctx), kindName),
+								fmt.Sprintf("%s interceptor at token #%d %q (%d:%d): CurrentContext()=%d but the innermost enclosing context is %s", kindName, c.ord, gt.Text, gt.Line, gt.Col, int(c.ctx), want))
+						}
+					}
+				}
+				for i, t := range p.Toks {
+					if t.Role == "fe.kw" && i > 0 {
+						switch p.Toks[i-1].Role {
+						case "call.(", "call.,":
+							st.Inc("probe.funcexpr_in_call_argument")
+						case "obj.:":
+							st.Inc("probe.funcexpr_in_object_value")
+						case "arr.[", "arr.,":
+							st.Inc("probe.funcexpr_in_array")
+						case "if.(", "while.(":
+							st.Inc("probe.funcexpr_in_condition")
+						}
+					}
+				}
+			}
+			// final state of the chosen input under the simulated installation
+			finalCheck := func(label string, o outcome, txt string, mm xutil.Mode) {
+				if o.panic != "" {
+					return
+				}
+				if o.ctxTop != parser.GlobalContext || o.inFunc {
+					add("C16", "final-state", fmt.Sprintf("final-state|ctx=%d|inFunc=%v", int(o.ctxTop), o.inFunc),
+						fmt.Sprintf("%s: after ParseProgram returned, CurrentContext()=%d IsInFunction()=%v (mode %s) for input %q", label, int(o.ctxTop), o.inFunc, mm, txt))
+				}
+			}
+			finalCheck("with interceptors", out, text, m)
+			finalCheck("one observer", refOut, text, m)
+			// final state over every enumerated fault of this program x 4 modes (plain builder)
+			faults := faultsim.EnumerateFaults(p)
+			if curBuild > 0 {
+				faults = nil
+			}
+			for _, f := range faults {
+				for _, mm := range xutil.AllModes {
+					o := xutil.Parse(xutil.PlainBuilder(mm), f.Text)
+					res.Evals++
+					if o.Panic != nil || o.Parser == nil {
+						continue
+					}
+					if o.Parser.CurrentContext() != parser.GlobalContext || o.Parser.IsInFunction() {
+						add("C16", "final-state", fmt.Sprintf("final-state|ctx=%d|inFunc=%v", int(o.Parser.CurrentContext()), o.Parser.IsInFunction()),
+							fmt.Sprintf("after ParseProgram returned, CurrentContext()=%d IsInFunction()=%v (mode %s, fault %s) for input %q", int(o.Parser.CurrentContext()), o.Parser.IsInFunction(), mm, f.Ctx, f.Text))
+					}
+					if len(o.Errors) > 0 {
+						st.Inc("probe.final_state_checked_on_erroring_input")
+					}
 				}
 			}
 		}
-	}
 
+	}
 	res.Violations = viol
-	res.Fingerprint = kernel.Mix(kernel.Hash64(text), kernel.Hash64(in.String()+m.String())+uint64(len(rec.events)))
+	res.Fingerprint = kernel.Mix(kernel.Hash64(text), kernel.Hash64(in.String()+m.String())+uint64(res.Steps))
 	res.Nontrivial = in.kS+in.kE+in.kT >= 1 && len(p.Toks) >= 4
 	if len(text) <= 60 {
-		res.Sample = map[string]any{"input": text, "mode": m.String(), "install": in.String(), "callback_events": len(rec.events), "fault": faultDesc}
+		res.Sample = map[string]any{"input": text, "mode": m.String(), "install": in.String(), "callback_events": res.Steps, "fault": faultDesc}
 	}
 	return res
 }
@@ -889,7 +971,7 @@ func init() {
 			}
 			return kernel.TierSpec{Runs: 200_000, WallSeconds: 45, ShrinkSecs: 20, RunBudgetMs: 10000}
 		},
-		Rule: "each run = one seeded program (valid, or with one injected fault) x one parser mode x one seeded installation of 0..8 token, statement and expression interceptors (direct or via Install, seeded registration order) x a seeded per-invocation action schedule (pass / re-enter); compared with the zero-interceptor run and a one-observer run; C16 additionally checks the final context state on every enumerated fault x 4 modes; distinct = distinct (input text, installation, mode, history length); non-trivial = at least one interceptor and at least 4 tokens",
+		Rule: "each run = one seeded program (valid, or with one injected fault) x one parser mode x one seeded installation of 0..8 token, statement and expression interceptors (direct or via Install, seeded registration order) x a seeded per-invocation action schedule (pass / re-enter / run an independent nested parser first) x 1..3 parsers built one after the other from the same builder, with parties possibly installed between two builds; every parser is compared with the zero-interceptor run and a one-observer run; C16 additionally checks the final context state on every enumerated fault x 4 modes; distinct = distinct (input text, installation, mode, history length); non-trivial = at least one interceptor and at least 4 tokens",
 		Real:      []string{"lexer (interceptor chain)", "parser (interceptor chains, context stack, all modes)", "ast", "compiler (compact + one pretty configuration, for the output clause)"},
 		Simulated: []string{"all plugin parties: token/statement/expression interceptors and their per-invocation decisions", "the installing plugins (Install)", "the faulty storage medium (injected corruption of the input)"},
 		Oracles:   []string{"zero-interceptor run of the same input (transparency / re-entrancy)", "recorded callback history checked for nesting, order and exactly-once", "generator ground truth: statement starts, token positions, nesting context of every token"},
@@ -899,8 +981,8 @@ func init() {
 			"sampling over programs, installations and action schedules; not exhaustive",
 		},
 		RequiredProbes: map[string][]string{
-			"C04": {"probe.reentrant_invocations", "probe.reentrant_at_depth_ge3", "probe.reentrant_party_before_passthrough_party", "probe.installed_via_plugin", "probe.malformed_with_errors_under_many_interceptors", "probe.eight_of_each_kind"},
-			"C16": {"probe.depth_ge5", "probe.function_body_direct", "probe.funcexpr_in_call_argument", "probe.funcexpr_in_object_value", "probe.funcexpr_in_condition", "probe.final_state_checked_on_erroring_input"},
+			"C04": {"probe.reentrant_invocations", "probe.reentrant_at_depth_ge3", "probe.reentrant_party_before_passthrough_party", "probe.installed_via_plugin", "probe.malformed_with_errors_under_many_interceptors", "probe.eight_of_each_kind", "probe.builder_reused_for_another_parser", "probe.party_installed_between_two_builds", "probe.nested_parser_run_inside_interceptor"},
+			"C16": {"probe.depth_ge5", "probe.function_body_direct", "probe.funcexpr_in_call_argument", "probe.funcexpr_in_object_value", "probe.funcexpr_in_condition", "probe.final_state_checked_on_erroring_input", "probe.nested_parser_run_inside_interceptor", "probe.builder_reused_for_another_parser"},
 		},
 	})
 }
